@@ -567,6 +567,13 @@ func (c *client) lookupRegion(ctx context.Context,
 	var err error
 	backoff := backoffStart
 	for {
+		select {
+		case <-c.done:
+			// don't keep looking things up (in particular in ZooKeeper,
+			// which doesn't go through SendRPC) for a closed client
+			return nil, "", ErrClientClosed
+		default:
+		}
 		// If it takes longer than regionLookupTimeout, fail so that we can sleep
 		lookupCtx, cancel := context.WithTimeout(ctx, c.regionLookupTimeout)
 		if c.clientType == region.MasterClient {
@@ -596,6 +603,9 @@ func (c *client) lookupRegion(ctx context.Context,
 			} else if err == ErrClientClosed {
 				return nil, "", err
 			}
+		}
+		if err == ErrClientClosed {
+			return nil, "", err
 		}
 		if err == nil {
 			c.logger.Debug("looked up a region", "table", strconv.Quote(string(table)),
@@ -1112,5 +1122,7 @@ func (c *client) zkLookup(ctx context.Context, resource zk.ResourceName) (string
 		return res.addr, res.err
 	case <-ctx.Done():
 		return "", ctx.Err()
+	case <-c.done:
+		return "", ErrClientClosed
 	}
 }
